@@ -39,7 +39,8 @@ TECHNIQUE = "round trip through an independent reference encryptor, exact compar
 RULE = (
     "one case = one generated document x one password attempt. Configurations cycle deterministically through "
     "V1/R2-40, V1/R3-40, V2/R3 with every key length 40..128 step 8 (with and without /Length when 40), V4/R4 with "
-    "CFM V2 / AESV2 / Identity, V5/R5 and V5/R6 with AESV3 / Identity; everything else is drawn from "
+    "CFM V2 / AESV2 / Identity, V5/R5 and V5/R6 with AESV3 / Identity (V4/V5: Encrypt /Length absent or 128/256, "
+    "crypt filter /Length present, or absent for the AES methods); everything else is drawn from "
     "Random('C10/seed/sub/j'): password pair categories (empty, ascii, 31/32/33 bytes, long, Latin-1, non-Latin-1 and "
     "Hebrew for R5/R6, owner==user, no owner password), /P with random permission bits and the reserved bits as "
     "Table 22 requires, /ID present (16 or odd lengths) / two empty strings / absent, EncryptMetadata true/false "
@@ -49,8 +50,8 @@ RULE = (
     "extension, case swap, doubled, empty, random, 32nd/127th-byte variants, non-Latin-1, not PDFDocEncodable. "
     "Narrowings: R2-R4 passwords only over characters where PDFDocEncoding and Latin-1 agree (0x20-0x7E, 0xA1-0xFF "
     "without 0xAD); R5/R6 real passwords only SASLprep-stable strings (mapping cases are a fixed list from RFC 4013 "
-    "section 3 and RFC 3454 B.1/C.1.2); wrong passwords never equal a valid one after padding/truncation; V4 always "
-    "with /Length 128; no /Crypt filters, StmF == StrF; absent /ID only as documented by pdfminer (read as empty "
+    "section 3 and RFC 3454 B.1/C.1.2); wrong passwords never equal a valid one after padding/truncation; a V2 crypt filter inside V4 "
+    "always says /Length 16 (other lengths are read differently by different readers); no /Crypt filters, StmF == StrF; absent /ID only as documented by pdfminer (read as empty "
     "strings); no strings in the dictionary of an unencrypted /Metadata stream; tagged sub-families: strings in "
     "stream dictionaries, Identity by default (StmF/StrF absent), R6 SASLprep mappings, R6 unpreparable passwords. "
     "distinct = distinct (file bytes, password); non-trivial = a wrong-password attempt, or a valid open of a "
@@ -99,7 +100,9 @@ def minimums(tier: str) -> Dict[str, int]:
          "metadata_plain_checked": 400, "large_objnum_objects": 2000, "nonzero_gen_objects": 2000,
          "seen:large_objnums": 13, "seen:generations": 7, "ref_selftest_agree": 9, "seen:xref_kind": 3,
          "seen:id_mode": 3, "seen:user_pw_category": 11, "tagged:%s" % TAG_STREAMDICT: 60,
-         "tagged:%s" % TAG_IDDEFAULT: 20, "tagged:%s" % TAG_SASLMAP: 10, "tagged:%s" % TAG_UNPREP: 6}
+         "tagged:%s" % TAG_IDDEFAULT: 20, "tagged:%s" % TAG_SASLMAP: 10, "tagged:%s" % TAG_UNPREP: 6,
+         "encrypt_length:V4:absent": 80, "encrypt_length:V4:written": 80, "encrypt_length:V5:absent": 150,
+         "encrypt_length:V5:written": 150, "encrypt_length:V2:absent": 8}
     if tier == "quick":
         return q
     f = (256 * 100) // (48 * 36)
@@ -581,7 +584,7 @@ def gen_case(seed: int, sub: int, j: int, tier: str = "quick") -> Dict[str, Any]
     twin = C.build_sparse(doc, xref="table")[0]
 
     # ---- encrypt
-    opts = {"encrypt_objnum": free_seq() if rng.random() < 0.7 else None, "write_length": not (bits == 40 and V == 2 and rng.random() < 0.5), "cf_absent": rng.random() < 0.5,
+    opts = {"encrypt_objnum": free_seq() if rng.random() < 0.7 else None, "write_length": not ((V >= 4 or (V == 2 and bits == 40)) and rng.random() < 0.5), "cf_length": rng.random() < 0.6, "cf_absent": rng.random() < 0.5,
             "identity_default": tag == TAG_IDDEFAULT, "encrypt_direct": rng.random() < 0.2,
             "hex_id": rng.random() < 0.7, "hex_ou": rng.random() < 0.5, "write_em_true": rng.random() < 0.3}
     enc = C.StdEncryptor(V, R, bits, cfm, prep(R, user), None if owner is None else prep(R, owner), P,
@@ -616,7 +619,7 @@ def gen_case(seed: int, sub: int, j: int, tier: str = "quick") -> Dict[str, Any]
         "enc_objnum": enc.enc_ref.n if enc.enc_ref is not None else None, "enc_O": enc.O, "enc_U": enc.U,
         "xref_objnum": xref_objnum, "caching": caching, "encrypt_metadata": encrypt_metadata, "meta_n": meta_n,
         "features": {"ucat": ucat, "ocat": ocat, "id_mode": id_mode, "xref_kind": xref_kind, "builder": builder,
-                     "large": large, "encrypt_direct": opts["encrypt_direct"], "lines": lines_total,
+                     "large": large, "encrypt_direct": opts["encrypt_direct"], "length_written": opts["write_length"] and V >= 2, "lines": lines_total,
                      "really_encrypted": really_encrypted, "gens": sorted(set(doc.gens.values())), "n_gen_objects": len(doc.gens),
                      "objnums_large": sorted(n for n in doc.objs if n >= 255)},
     }
@@ -955,6 +958,7 @@ def run_shard(spec: Dict[str, Any], rec) -> None:
                 rec.see("large_objnums", n)
         if feat["encrypt_direct"]:
             rec.count("encrypt_dict_direct")
+        rec.count("encrypt_length:%s:%s" % (case["cfg"][:2], "written" if feat["length_written"] else "absent"))
         if not case["caching"]:
             rec.count("caching_off_docs")
         for k, v in obs.items():
